@@ -125,8 +125,11 @@ fn method_program(m: &MDesc, id: u64, seed: u64, h: &mut H, small: bool) {
 		ParKind::Sz => 1 + r.below(20),
 		_ => {
 			let lo = m.min_len.max(if m.par == ParKind::LL && m.name != "TSI" { 2 } else { 1 });
-			let hi = if small { 8 } else { m.max_len.min(MAXLEN) };
-			if r.chance(0.6) {
+			let hi = if small { 8 } else { m.max_len.min(MAXLEN + 1) };
+			if !small && r.chance(0.08) {
+				// the largest accepted length (PeriodType::MAX itself for the kinds without a full-length window)
+				hi
+			} else if r.chance(0.6) {
 				lo + r.below((hi.min(24)).saturating_sub(lo) + 1)
 			} else {
 				lo + r.below(hi - lo + 1)
